@@ -146,7 +146,13 @@ func init() {
 		return name
 	})
 	ext("Symbolic", func(fr *frame, a []value) value { return true })
-	ext("IsConcrete", func(fr *frame, a []value) value { return !isSym(a[0]) })
+	ext("IsConcrete", func(fr *frame, a []value) value {
+		v := a[0]
+		if i, ok := v.(iface); ok {
+			v = i.v
+		}
+		return !isSym(v)
+	})
 	// TryCall(f) runs f and reports whether it panicked (Go panic escaping the code under test).
 	ext("Panics", func(fr *frame, a []value) value {
 		var msg string
